@@ -180,12 +180,23 @@ Proof. intros. eapply cok_mono; eauto using same_seq_wle. Qed.
 Lemma same_seq_ent : forall w w', same_seq w w' -> ent_ok w -> ent_ok w'.
 Proof. intros w w' (Hn&_&Hr&_) H k f. rewrite Hr, Hn. apply H. Qed.
 
-(* what the segment did to the sequence state: nothing, exactly one new frame numbered nout, or
-   exactly one retransmission frame (no counter, no journal change) *)
+Lemma ent_none : forall w k, ent_ok w -> nout w <= k -> row_at k (rows w) = None.
+Proof.
+  intros w k He Hk. destruct (row_at k (rows w)) as [f|] eqn:E; auto.
+  assert (Hin : In (k, f) (rows w)).
+  { clear -E. induction (rows w) as [|[a g] l IH]; simpl in *; [discriminate|].
+    destruct (a =? k) eqn:Ea; [apply Z.eqb_eq in Ea; inversion E; subst; auto|auto]. }
+  destruct (He _ _ Hin). lia.
+Qed.
+
+(* what the segment did to the sequence state: nothing, exactly one new frame numbered nout - journaled
+   under nout, stored counter nout, live counter nout + 1, all in the same segment -, or exactly one
+   retransmission frame (no counter, no journal change) *)
 Inductive exec_post (w : world) (t' : task) (w' : world) : Prop :=
 | EP_quiet : same_seq w w' -> (t_wait t' = WHook \/ t_wait t' = WDone) -> exec_post w t' w'
 | EP_sent : forall f, t_wait t' = WDrain f (tick w) -> f_seq f = nout w -> is_newf f = true ->
-    nout w' = nout w + 1 -> rwire w' = f :: rwire w -> tick w' = tick w + 1 -> sout w' = sout w -> rows w' = rows w ->
+    nout w' = nout w + 1 -> rwire w' = f :: rwire w -> tick w' = tick w + 1 -> sout w' = nout w ->
+    rows w' = insert_row (nout w) f (rows w) ->
     exec_post w t' w'
 | EP_retx : forall g, t_wait t' = WDrain g (tick w) -> nojournal g = true -> is_newf g = false ->
     retx_ok (rows w) (nout w) g ->
@@ -204,7 +215,7 @@ Lemma exec_post_wle : forall w t' w', exec_post w t' w' -> wle w w'.
 Proof.
   intros w t' w' [Hq _|f _ _ _ Hn _ _ _ Hr|g _ _ _ _ Hn _ _ _ Hr].
   - apply same_seq_wle; auto.
-  - split; [lia|rewrite Hr; apply incl_refl].
+  - split; [lia|rewrite Hr; intros [k g] H; apply in_insert; auto].
   - split; [lia|rewrite Hr; apply incl_refl].
 Qed.
 
@@ -247,36 +258,40 @@ Proof.
   - apply Hk; [apply same_seq_refl|]. apply clean_cons; auto.
 Qed.
 
-Lemma good_send_tail : forall abort m rest out w k,
+Lemma good_send_tail : forall abort m rest out w k, ent_ok w ->
   (is_new m = true \/ retx_msg (rows w) (nout w) m) -> cok w rest -> clean out -> kgood abort w k ->
   good abort w (send_tail abort m rest out w k).
 Proof.
-  intros abort m rest out w k Hm Hs Hc Hk. unfold send_tail.
+  intros abort m rest out w k He Hm Hs Hc Hk. unfold send_tail.
   destruct ((m_ty m =? T_TESTREQ) && negb (treq w)).
   { apply good_raise; auto; discriminate. }
   destruct Hm as [Hn|[(kk&f&Hin&->)|(b&n&->&Hbn)]].
   - unfold is_new in Hn. apply andb_true_iff in Hn. destruct Hn as [Hty Hpd].
     apply negb_true_iff in Hty, Hpd. unfold number. rewrite Hty, Hpd.
+    unfold nojournal, persist. cbn [f_pd f_ty f_gf f_seq rows]. rewrite ?Hty, ?Hpd. cbn [orb andb].
+    rewrite (ent_none w (nout w) He (Z.le_refl _)).
     repeat split; simpl; auto; try discriminate.
-    + eapply cok_mono; [|exact Hs]. split; simpl; [lia|apply incl_refl].
+    + eapply cok_mono; [|exact Hs]. split; simpl; [lia|]. intros [k0 g] H. apply in_insert. auto.
     + eapply EP_sent; simpl; try reflexivity. unfold is_newf. simpl. rewrite Hty. reflexivity.
   - assert (Hnum : number (replay_msg f) w = inr (f_seq f, w)).
     { unfold number, replay_msg. simpl. destruct (f_ty f =? T_SEQRESET); reflexivity. }
-    rewrite Hnum. repeat split; simpl; auto; try discriminate.
+    rewrite Hnum. cbn [replay_msg m_ty m_pd m_id m_gf]. unfold nojournal. cbn [f_pd orb].
+    repeat split; simpl; auto; try discriminate.
     eapply EP_retx; simpl; try reflexivity.
     + unfold is_newf. simpl. apply andb_false_r.
     + left. exists kk, f. auto.
   - assert (Hnum : number (gapfill_msg b n) w = inr (b, w)) by reflexivity.
-    rewrite Hnum. repeat split; simpl; auto; try discriminate.
+    rewrite Hnum. change (nojournal (mkF b (m_ty (gapfill_msg b n)) (m_pd (gapfill_msg b n)) (m_id (gapfill_msg b n)) (m_gf (gapfill_msg b n)))) with true.
+    repeat split; simpl; auto; try discriminate.
     eapply EP_retx; simpl; try reflexivity.
     right. exists b, n. auto.
 Qed.
 
-Lemma good_send_head : forall abort m rest out w k,
+Lemma good_send_head : forall abort m rest out w k, ent_ok w ->
   (is_new m = true \/ retx_msg (rows w) (nout w) m) -> cok w rest -> clean out -> kgood abort w k ->
   good abort w (send_head abort m rest out w k).
 Proof.
-  intros abort m rest out w k Hm Hs Hc Hk. unfold send_head. destruct (gate m w) as [e| |] eqn:Eg.
+  intros abort m rest out w k He Hm Hs Hc Hk. unfold send_head. destruct (gate m w) as [e| |] eqn:Eg.
   - assert (e = EConn) as ->.
     { unfold gate in Eg. repeat match type of Eg with (if ?c then _ else _) = _ => destruct c end; congruence. }
     apply good_raise; auto; discriminate.
@@ -286,25 +301,25 @@ Proof.
   - apply good_send_tail; auto.
 Qed.
 
-Lemma execf_safe : forall abort code tail k out w, cok w code -> cok w tail -> clean out -> kgood abort w k ->
+Lemma execf_safe : forall abort code tail k out w, ent_ok w -> cok w code -> cok w tail -> clean out -> kgood abort w k ->
   good abort w (execf abort code tail k out w).
 Proof.
-  intros abort code. induction code as [|i rest IH]; intros tail k out w Hcode Htail Hc Hk.
+  intros abort code. induction code as [|i rest IH]; intros tail k out w He Hcode Htail Hc Hk.
   - simpl. apply Hk; auto using same_seq_refl.
   - inversion Hcode as [|? ? Hi Hrest]; subst.
     assert (Hafter : cok w (rest ++ tail)) by (apply Forall_app; auto).
     assert (Hk' : kgood abort w (execf abort rest tail k)).
-    { intros out1 w1 Hs1 Hc1. apply IH; eauto using same_seq_cok, kgood_same. }
+    { intros out1 w1 Hs1 Hc1. apply IH; eauto using same_seq_cok, same_seq_ent, kgood_same. }
     destruct i; cbn [execf]; simpl in Hi.
     + apply good_send_head; auto.
     + assert (Hs : same_seq w (set_role R_INITIATOR w)) by (repeat split).
       apply good_same with (w := set_role R_INITIATOR w); auto.
-      apply good_send_tail; eauto using same_seq_cok, kgood_same.
+      apply good_send_tail; eauto using same_seq_cok, same_seq_ent, kgood_same.
     + destruct (treq w).
       * apply good_raise; auto; discriminate.
       * assert (Hs : same_seq w (set_treq true w)) by (repeat split).
         apply good_same with (w := set_treq true w); auto.
-        apply good_send_head; eauto using same_seq_cok, kgood_same.
+        apply good_send_head; eauto using same_seq_cok, same_seq_ent, kgood_same.
     + destruct (unless_awaiting && (st w =? S_AWAITING)).
       * apply Hk'; auto using same_seq_refl.
       * repeat split; simpl; auto; try discriminate.
@@ -382,278 +397,103 @@ Definition task_ok (w : world) (t : task) : Prop :=
 Lemma task_ok_mono : forall w w' t, wle w w' -> task_ok w t -> task_ok w' t.
 Proof. intros w w' t Hw (?&?&?). repeat split; auto. eapply cok_mono; eauto. Qed.
 
-Lemma resume_idle : forall t w, (t_wait t = WStart \/ t_wait t = WHook) -> ent_ok w -> task_ok w t ->
+Lemma resume_any : forall t w, t_wait t <> WDone -> ent_ok w -> task_ok w t ->
   exists t' w', resume t w = (t', w') /\ task_ok w' t' /\ exec_post w t' w'.
 Proof.
   intros t w Hw He (Hs & Hc & _).
-  destruct (exec_safe (t_abort t) (t_code t) (t_out t) w He Hs Hc) as (?&?&?&?&?).
-  destruct (exec (t_abort t) (t_code t) (t_out t) w) as [t' w'] eqn:E. simpl in *.
-  exists t', w'. split; [|split; [repeat split|]; auto].
-  unfold resume. destruct Hw as [-> | ->]; auto.
+  assert (Hgen : forall out, clean out -> exists t' w', exec (t_abort t) (t_code t) out w = (t', w') /\
+                                                     task_ok w' t' /\ exec_post w t' w').
+  { intros out Hco. destruct (exec_safe (t_abort t) (t_code t) out w He Hs Hco) as (?&?&?&?&?).
+    destruct (exec (t_abort t) (t_code t) out w) as [t' w'] eqn:E. simpl in *.
+    exists t', w'. split; [|split; [repeat split|]]; auto. }
+  unfold resume. destruct (t_wait t) eqn:E; try congruence; auto using clean_ok.
 Qed.
 
-Lemma resume_retx : forall t w g tk, t_wait t = WDrain g tk -> nojournal g = true -> ent_ok w -> task_ok w t ->
-  exists t' w', resume t w = (t', w') /\ task_ok w' t' /\ exec_post w t' w'.
-Proof.
-  intros t w g tk Hw Hn He (Hs & Hc & _).
-  destruct (exec_safe (t_abort t) (t_code t) (OOk :: t_out t) w He Hs (clean_ok _ Hc)) as (?&?&?&?&?).
-  destruct (exec (t_abort t) (t_code t) (OOk :: t_out t) w) as [t' w'] eqn:E. simpl in *.
-  exists t', w'. split; [|split; [repeat split|]; auto].
-  unfold resume. rewrite Hw, Hn. auto.
-Qed.
+(* ================================================================== 3. invariant *)
 
-(* world after Journaler.persist_msg stored frame f *)
-Definition persisted (f : frame) (w : world) : world :=
-  mkW (nout w) (f_seq f) (insert_row (f_seq f) f (rows w)) (rwire w) (st w) (role w) (treq w) (tick w).
-
-Lemma persisted_wle : forall f w, wle w (persisted f w).
-Proof. intros f w. split; simpl; [lia|]. intros [k g] H. apply in_insert. auto. Qed.
-
-Lemma resume_drain : forall t w f tk, t_wait t = WDrain f tk -> nojournal f = false ->
-  row_at (f_seq f) (rows w) = None -> ent_ok (persisted f w) -> task_ok w t ->
-  exists t' w', resume t w = (t', w') /\ task_ok w' t' /\ exec_post (persisted f w) t' w'.
-Proof.
-  intros t w f tk Hw Hn Hr He (Hs & Hc & _).
-  assert (Hs' : cok (persisted f w) (t_code t)) by (eapply cok_mono; eauto using persisted_wle).
-  destruct (exec_safe (t_abort t) (t_code t) (OOk :: t_out t) (persisted f w) He Hs' (clean_ok _ Hc)) as (?&?&?&?&?).
-  destruct (exec (t_abort t) (t_code t) (OOk :: t_out t) (persisted f w)) as [t' w'] eqn:E. simpl in *.
-  exists t', w'. split; [|split; [repeat split|]; auto].
-  unfold resume, persist. rewrite Hw, Hn, Hr. fold (persisted f w). auto.
-Qed.
-
-(* ================================================================== 3. invariants *)
-
-Definition pmap := nat -> option (frame * Z).
-
-(* the frame (and drain ticket) a task still has to journal *)
-Definition pw (t : task) : option (frame * Z) :=
-  match t_wait t with WDrain f tk => if nojournal f then None else Some (f, tk) | _ => None end.
-
-Definition pend (ts : list task) : pmap :=
-  fun j => match nth_error ts j with Some t => pw t | None => None end.
-
-Definition Pupd (P : pmap) (i : nat) (v : option (frame * Z)) : pmap :=
-  fun j => if Nat.eqb j i then v else P j.
-
-Lemma pend_upd : forall ts i t t' j, nth_error ts i = Some t ->
-  pend (upd i t' ts) j = Pupd (pend ts) i (pw t') j.
-Proof.
-  intros ts i t t' j H. unfold pend, Pupd. destruct (Nat.eqb_spec j i) as [->|Hn].
-  - rewrite (nth_upd_eq _ _ _ _ H). reflexivity.
-  - rewrite nth_upd_neq by assumption. reflexivity.
-Qed.
-
-Lemma newf_nojournal : forall f, is_newf f = true -> nojournal f = false.
-Proof.
-  intros f H. unfold is_newf in H. apply andb_true_iff in H. destruct H as [H1 H2].
-  apply negb_true_iff in H1, H2. unfold nojournal. rewrite H1, H2. reflexivity.
-Qed.
-
-Record Inv (n0 : Z) (rows0 : list (Z * frame)) (w : world) (P : pmap) : Prop := mkInv {
+(* With the journal write inside the atomic segment of send_msg nothing is ever "pending": the invariant
+   speaks about the world only and holds after every scheduler step of every schedule. *)
+Record Inv (n0 : Z) (rows0 : list (Z * frame)) (w : world) : Prop := mkInv {
   i_consec : consec (newf (rwire w)) (nout w);
   i_len : nout w = n0 + Z.of_nat (length (newf (rwire w)));
   i_retx : Forall (fun g => is_newf g = true \/ retx_ok (rows w) (nout w) g) (rwire w);
   i_ent : ent_ok w;
   i_low : forall k, k < n0 -> row_at k (rows w) = row_at k rows0;
   i_rows : forall k f, n0 <= k -> row_at k (rows w) = Some f -> In f (newf (rwire w)) /\ f_seq f = k;
-  i_cover : forall f, In f (newf (rwire w)) -> row_at (f_seq f) (rows w) = Some f \/ exists j tk, P j = Some (f, tk);
-  i_pend : forall j f tk, P j = Some (f, tk) ->
-           In f (newf (rwire w)) /\ row_at (f_seq f) (rows w) = None /\ tk < tick w;
-  i_dist : forall j j' f f' tk tk', P j = Some (f, tk) -> P j' = Some (f', tk') -> j <> j' ->
-           f_seq f <> f_seq f' /\ tk <> tk'
+  i_cover : forall f, In f (newf (rwire w)) -> row_at (f_seq f) (rows w) = Some f;
+  i_sout : sout w = nout w - 1
 }.
 
-Lemma inv_range : forall n0 r0 w P f, Inv n0 r0 w P -> In f (newf (rwire w)) -> n0 <= f_seq f < nout w.
+Lemma inv_range : forall n0 r0 w f, Inv n0 r0 w -> In f (newf (rwire w)) -> n0 <= f_seq f < nout w.
 Proof.
-  intros n0 r0 w P f HI Hin. pose proof (consec_in _ _ _ (i_consec _ _ _ _ HI) Hin).
-  pose proof (i_len _ _ _ _ HI). lia.
+  intros n0 r0 w f HI Hin. pose proof (consec_in _ _ _ (i_consec _ _ _ HI) Hin).
+  pose proof (i_len _ _ _ HI). lia.
 Qed.
 
-Lemma inv_ext : forall n0 r0 w w' P P', Inv n0 r0 w P -> same_seq w w' -> (forall j, P' j = P j) -> Inv n0 r0 w' P'.
+Lemma inv_ext : forall n0 r0 w w', Inv n0 r0 w -> same_seq w w' -> Inv n0 r0 w'.
 Proof.
-  intros n0 r0 w w' P P' HI Hs HP. pose proof Hs as (Hn&_&Hr&Hw&Ht). destruct HI.
-  constructor; rewrite ?Hn, ?Hr, ?Hw, ?Ht; auto.
-  - eapply same_seq_ent; eauto.
-  - intros f Hf. destruct (i_cover0 f Hf) as [|(j&tk&Hj)]; auto. right. exists j, tk. rewrite HP; auto.
-  - intros j f tk Hj. rewrite HP in Hj. eauto.
-  - intros j j' f f' tk tk' Hj Hj'. rewrite HP in Hj, Hj'. eauto.
+  intros n0 r0 w w' HI Hs. pose proof Hs as (Hn&Hso&Hr&Hw&Ht). destruct HI.
+  constructor; rewrite ?Hn, ?Hso, ?Hr, ?Hw, ?Ht; auto.
+  eapply same_seq_ent; eauto.
 Qed.
 
-Lemma inv_persist : forall n0 r0 w P i f tk, Inv n0 r0 w P -> P i = Some (f, tk) ->
-  Inv n0 r0 (persisted f w) (Pupd P i None).
-Proof.
-  intros n0 r0 w P i f tk HI Hi.
-  destruct (i_pend _ _ _ _ HI _ _ _ Hi) as (Hin & Hnone & Htk).
-  pose proof (inv_range _ _ _ _ _ HI Hin) as Hrange.
-  constructor; simpl.
-  - apply (i_consec _ _ _ _ HI).
-  - apply (i_len _ _ _ _ HI).
-  - eapply Forall_impl; [|apply (i_retx _ _ _ _ HI)]. intros g [|Hg]; auto. right.
-    eapply retx_ok_mono; [| |exact Hg]; [|lia]. intros [k h] H. apply in_insert. auto.
-  - intros k g Hg. simpl in Hg. apply in_insert in Hg. destruct Hg as [Hg|Hg].
-    + inversion Hg; subst. simpl. split; auto; lia.
-    + apply (i_ent _ _ _ _ HI); auto.
-  - intros k Hk. rewrite row_at_insert by assumption.
-    destruct (k =? f_seq f) eqn:E; [apply Z.eqb_eq in E; lia|]. apply (i_low _ _ _ _ HI); auto.
-  - intros k g Hk Hg. rewrite row_at_insert in Hg by assumption.
-    destruct (k =? f_seq f) eqn:E.
-    + apply Z.eqb_eq in E. inversion Hg; subst. auto.
-    + apply (i_rows _ _ _ _ HI); auto.
-  - intros g Hg. rewrite row_at_insert by assumption.
-    destruct (f_seq g =? f_seq f) eqn:E.
-    + apply Z.eqb_eq in E. left. f_equal. symmetry.
-      eapply consec_inj; eauto using (i_consec _ _ _ _ HI).
-    + destruct (i_cover _ _ _ _ HI g Hg) as [|(j&tk'&Hj)]; auto.
-      right. exists j, tk'. unfold Pupd. destruct (Nat.eqb_spec j i) as [->|]; auto.
-      rewrite Hi in Hj. inversion Hj; subst. rewrite Z.eqb_refl in E. discriminate.
-  - intros j g tk' Hj. unfold Pupd in Hj. destruct (Nat.eqb_spec j i) as [->|Hn]; [discriminate|].
-    destruct (i_pend _ _ _ _ HI _ _ _ Hj) as (Hing & Hnoneg & Htkg).
-    destruct (i_dist _ _ _ _ HI _ _ _ _ _ _ Hj Hi Hn) as [Hd _].
-    repeat split; auto. rewrite row_at_insert by assumption.
-    destruct (f_seq g =? f_seq f) eqn:E; auto. apply Z.eqb_eq in E. contradiction.
-  - intros j j' g g' tk1 tk2 Hj Hj' Hn. unfold Pupd in Hj, Hj'.
-    destruct (Nat.eqb_spec j i); [discriminate|]. destruct (Nat.eqb_spec j' i); [discriminate|].
-    eapply (i_dist _ _ _ _ HI); eauto.
-Qed.
-
-Lemma inv_sent : forall n0 r0 w w' P i f, Inv n0 r0 w P -> P i = None ->
+Lemma inv_sent : forall n0 r0 w w' f, Inv n0 r0 w ->
   f_seq f = nout w -> is_newf f = true ->
-  nout w' = nout w + 1 -> rwire w' = f :: rwire w -> tick w' = tick w + 1 -> rows w' = rows w ->
-  Inv n0 r0 w' (Pupd P i (Some (f, tick w))).
+  nout w' = nout w + 1 -> rwire w' = f :: rwire w -> sout w' = nout w -> rows w' = insert_row (nout w) f (rows w) ->
+  Inv n0 r0 w'.
 Proof.
-  intros n0 r0 w w' P i f HI Hi Hseq Hnew Hn Hw Ht Hr.
-  assert (Hfree : row_at (nout w) (rows w) = None).
-  { destruct (row_at (nout w) (rows w)) as [g|] eqn:E; auto.
-    pose proof (i_len _ _ _ _ HI).
-    destruct (i_rows _ _ _ _ HI (nout w) g ltac:(lia) E) as [Hin Hs].
-    pose proof (inv_range _ _ _ _ _ HI Hin). lia. }
+  intros n0 r0 w w' f HI Hseq Hnew Hn Hw Hso Hr.
+  pose proof (i_len _ _ _ HI) as Hlen.
+  assert (Hfree : row_at (nout w) (rows w) = None) by (apply ent_none; [apply (i_ent _ _ _ HI)|lia]).
   assert (Hnf : newf (rwire w') = f :: newf (rwire w)) by (rewrite Hw; unfold newf; simpl; rewrite Hnew; auto).
-  constructor; rewrite ?Hnf, ?Hn, ?Ht, ?Hr.
-  - simpl. split; [lia|]. replace (nout w + 1 - 1) with (nout w) by lia. apply (i_consec _ _ _ _ HI).
-  - simpl length. rewrite Nat2Z.inj_succ. pose proof (i_len _ _ _ _ HI). lia.
+  assert (Hincl : incl (rows w) (insert_row (nout w) f (rows w))) by (intros [k g] H; apply in_insert; auto).
+  constructor; rewrite ?Hnf, ?Hn, ?Hso, ?Hr.
+  - simpl. split; [lia|]. replace (nout w + 1 - 1) with (nout w) by lia. apply (i_consec _ _ _ HI).
+  - simpl length. rewrite Nat2Z.inj_succ. lia.
   - rewrite Hw. constructor; auto.
-    eapply Forall_impl; [|apply (i_retx _ _ _ _ HI)]. intros g [|Hg]; auto. right.
-    eapply retx_ok_mono; [apply incl_refl| |exact Hg]. lia.
-  - intros k g Hg. rewrite Hr, Hn in *. destruct (i_ent _ _ _ _ HI k g Hg). split; auto; lia.
-  - apply (i_low _ _ _ _ HI).
-  - intros k g Hk Hg. destruct (i_rows _ _ _ _ HI k g Hk Hg). split; auto. right; auto.
-  - intros g [<-|Hg].
-    + right. exists i, (tick w). unfold Pupd. rewrite Nat.eqb_refl. reflexivity.
-    + destruct (i_cover _ _ _ _ HI g Hg) as [|(j&tk&Hj)]; auto.
-      right. exists j, tk. unfold Pupd. destruct (Nat.eqb_spec j i) as [->|]; auto. congruence.
-  - intros j g tk Hj. unfold Pupd in Hj. destruct (Nat.eqb_spec j i) as [->|Hne].
-    + inversion Hj; subst. repeat split; [left; auto| rewrite Hseq; auto | lia].
-    + destruct (i_pend _ _ _ _ HI _ _ _ Hj) as (?&?&?). repeat split; [right; auto | auto | lia].
-  - intros j j' g g' tk1 tk2 Hj Hj' Hne. unfold Pupd in Hj, Hj'.
-    destruct (Nat.eqb_spec j i) as [->|Hn1]; destruct (Nat.eqb_spec j' i) as [->|Hn2].
-    + contradiction.
-    + inversion Hj; subst. destruct (i_pend _ _ _ _ HI _ _ _ Hj') as (Hin&_&?).
-      pose proof (inv_range _ _ _ _ _ HI Hin). lia.
-    + inversion Hj'; subst. destruct (i_pend _ _ _ _ HI _ _ _ Hj) as (Hin&_&?).
-      pose proof (inv_range _ _ _ _ _ HI Hin). lia.
-    + eapply (i_dist _ _ _ _ HI); eauto.
+    eapply Forall_impl; [|apply (i_retx _ _ _ HI)]. intros g [|Hg]; auto. right.
+    eapply retx_ok_mono; [exact Hincl| |exact Hg]. lia.
+  - intros k g Hg. rewrite Hr in Hg. rewrite Hn. apply in_insert in Hg. destruct Hg as [Hg|Hg].
+    + inversion Hg; subst. split; auto; lia.
+    + destruct (i_ent _ _ _ HI k g Hg). split; auto; lia.
+  - intros k Hk. rewrite row_at_insert by assumption.
+    destruct (k =? nout w) eqn:E; [apply Z.eqb_eq in E; lia|]. apply (i_low _ _ _ HI); auto.
+  - intros k g Hk Hg. rewrite row_at_insert in Hg by assumption.
+    destruct (k =? nout w) eqn:E.
+    + apply Z.eqb_eq in E. inversion Hg; subst. split; [left; auto|lia].
+    + destruct (i_rows _ _ _ HI k g Hk Hg). split; auto. right; auto.
+  - intros g [<-|Hg]; rewrite row_at_insert by assumption.
+    + rewrite Hseq, Z.eqb_refl. reflexivity.
+    + pose proof (inv_range _ _ _ _ HI Hg).
+      destruct (f_seq g =? nout w) eqn:E; [apply Z.eqb_eq in E; lia|]. apply (i_cover _ _ _ HI); auto.
+  - lia.
 Qed.
 
-Lemma inv_retx : forall n0 r0 w w' P P' g, Inv n0 r0 w P -> (forall j, P' j = P j) ->
+Lemma inv_retx : forall n0 r0 w w' g, Inv n0 r0 w ->
   is_newf g = false -> retx_ok (rows w) (nout w) g ->
-  nout w' = nout w -> rwire w' = g :: rwire w -> tick w' = tick w + 1 -> rows w' = rows w ->
-  Inv n0 r0 w' P'.
+  nout w' = nout w -> rwire w' = g :: rwire w -> sout w' = sout w -> rows w' = rows w ->
+  Inv n0 r0 w'.
 Proof.
-  intros n0 r0 w w' P P' g HI HP Hnew Hg Hn Hw Ht Hr.
+  intros n0 r0 w w' g HI Hnew Hg Hn Hw Hso Hr.
   assert (Hnf : newf (rwire w') = newf (rwire w)) by (rewrite Hw; unfold newf; simpl; rewrite Hnew; auto).
   destruct HI.
-  constructor; rewrite ?Hnf, ?Hn, ?Hr; auto.
+  constructor; rewrite ?Hnf, ?Hn, ?Hso, ?Hr; auto.
   - rewrite Hw. constructor; auto.
   - intros k f Hf. rewrite Hr in Hf. rewrite Hn. auto.
-  - intros f Hf. destruct (i_cover0 f Hf) as [|(j&tk&Hj)]; auto. right. exists j, tk. rewrite HP; auto.
-  - intros j f tk Hj. rewrite HP in Hj. destruct (i_pend0 _ _ _ Hj) as (?&?&?). repeat split; auto. lia.
-  - intros j j' f f' tk tk' Hj Hj'. rewrite HP in Hj, Hj'. eauto.
 Qed.
 
-Lemma inv_after_exec : forall n0 r0 w w' P i t', Inv n0 r0 w P -> P i = None -> exec_post w t' w' ->
-  Inv n0 r0 w' (Pupd P i (pw t')).
+Lemma inv_after_exec : forall n0 r0 w w' t', Inv n0 r0 w -> exec_post w t' w' -> Inv n0 r0 w'.
 Proof.
-  intros n0 r0 w w' P i t' HI Hi [Hs Hw|f Hw H1 H2 H4 H5 H6 H7 H8|g Hw H1 H2 H3 H4 H5 H6 H7 H8].
-  - eapply inv_ext; eauto. intros j. unfold Pupd, pw.
-    destruct (Nat.eqb_spec j i) as [->|]; auto. destruct Hw as [-> | ->]; auto.
-  - unfold pw. rewrite Hw, (newf_nojournal _ H2). eapply inv_sent; eauto.
-  - eapply inv_retx; eauto. intros j. unfold Pupd, pw. rewrite Hw, H1.
-    destruct (Nat.eqb_spec j i) as [->|]; auto.
-Qed.
-
-(* the part that needs FIFO wake-up: the stored counter trails the live one by the drain queue *)
-Record InvF (w : world) (P : pmap) : Prop := mkInvF {
-  f_lt : sout w < nout w;
-  f_cover : forall n, sout w < n < nout w -> exists j f tk, P j = Some (f, tk) /\ f_seq f = n;
-  f_above : forall j f tk, P j = Some (f, tk) -> sout w < f_seq f;
-  f_order : forall j j' f f' tk tk', P j = Some (f, tk) -> P j' = Some (f', tk') -> tk < tk' -> f_seq f < f_seq f'
-}.
-
-Lemma invF_ext : forall w w' P P', InvF w P -> nout w' = nout w -> sout w' = sout w -> (forall j, P' j = P j) -> InvF w' P'.
-Proof.
-  intros w w' P P' HF Hn Hs HP. destruct HF.
-  constructor; rewrite ?Hn, ?Hs; auto.
-  - intros n Hn'. destruct (f_cover0 n Hn') as (j&f&tk&?&?). exists j, f, tk. rewrite HP. auto.
-  - intros j f tk Hj. rewrite HP in Hj. eauto.
-  - intros j j' f f' tk tk' Hj Hj'. rewrite HP in Hj, Hj'. eauto.
-Qed.
-
-Lemma invF_persist : forall n0 r0 w P i f tk, Inv n0 r0 w P -> InvF w P -> P i = Some (f, tk) ->
-  (forall j f' tk', P j = Some (f', tk') -> tk <= tk') ->
-  InvF (persisted f w) (Pupd P i None).
-Proof.
-  intros n0 r0 w P i f tk HI HF Hi Hfifo.
-  destruct (i_pend _ _ _ _ HI _ _ _ Hi) as (Hin & _ & _).
-  pose proof (inv_range _ _ _ _ _ HI Hin) as Hrange.
-  pose proof (f_above _ _ HF _ _ _ Hi) as Habove.
-  constructor; simpl.
-  - lia.
-  - intros n Hn. destruct (f_cover _ _ HF n ltac:(lia)) as (j&g&tk'&Hj&Hg).
-    exists j, g, tk'. split; auto. unfold Pupd. destruct (Nat.eqb_spec j i) as [->|]; auto.
-    rewrite Hi in Hj. inversion Hj; subst. lia.
-  - intros j g tk' Hj. unfold Pupd in Hj. destruct (Nat.eqb_spec j i) as [->|Hn]; [discriminate|].
-    destruct (i_dist _ _ _ _ HI _ _ _ _ _ _ Hj Hi Hn) as [_ Hd].
-    pose proof (Hfifo _ _ _ Hj).
-    apply (f_order _ _ HF _ _ _ _ _ _ Hi Hj). lia.
-  - intros j j' g g' tk1 tk2 Hj Hj'. unfold Pupd in Hj, Hj'.
-    destruct (Nat.eqb_spec j i); [discriminate|]. destruct (Nat.eqb_spec j' i); [discriminate|].
-    eapply (f_order _ _ HF); eauto.
-Qed.
-
-Lemma invF_after_exec : forall n0 r0 w w' P i t', Inv n0 r0 w P -> InvF w P -> P i = None -> exec_post w t' w' ->
-  InvF w' (Pupd P i (pw t')).
-Proof.
-  intros n0 r0 w w' P i t' HI HF Hi [Hs Hw|f Hw H1 H2 H4 H5 H6 H7 H8|g Hw H1 H2 H3 H4 H5 H6 H7 H8].
-  - destruct Hs as (?&?&_). eapply invF_ext; eauto. intros j. unfold Pupd, pw.
-    destruct (Nat.eqb_spec j i) as [->|]; auto. destruct Hw as [-> | ->]; auto.
-  - unfold pw. rewrite Hw, (newf_nojournal _ H2). pose proof (f_lt _ _ HF).
-    constructor; rewrite ?H4, ?H7.
-    + lia.
-    + intros n Hn. destruct (Z.eq_dec n (nout w)) as [->|Hne].
-      * exists i, f, (tick w). unfold Pupd. rewrite Nat.eqb_refl. auto.
-      * destruct (f_cover _ _ HF n ltac:(lia)) as (j&g&tk&Hj&Hg). exists j, g, tk. split; auto.
-        unfold Pupd. destruct (Nat.eqb_spec j i) as [->|]; auto. congruence.
-    + intros j g tk Hj. unfold Pupd in Hj. destruct (Nat.eqb_spec j i) as [->|].
-      * inversion Hj; subst. lia.
-      * eapply (f_above _ _ HF); eauto.
-    + intros j j' g g' tk1 tk2 Hj Hj' Hlt. unfold Pupd in Hj, Hj'.
-      destruct (Nat.eqb_spec j i) as [->|Hn1]; destruct (Nat.eqb_spec j' i) as [->|Hn2].
-      * inversion Hj; inversion Hj'; subst. lia.
-      * inversion Hj; subst. destruct (i_pend _ _ _ _ HI _ _ _ Hj') as (_&_&?). lia.
-      * inversion Hj'; subst. destruct (i_pend _ _ _ _ HI _ _ _ Hj) as (Hin&_&_).
-        pose proof (inv_range _ _ _ _ _ HI Hin). lia.
-      * eapply (f_order _ _ HF); eauto.
-  - eapply invF_ext; eauto. intros j. unfold Pupd, pw. rewrite Hw, H1.
-    destruct (Nat.eqb_spec j i) as [->|]; auto.
+  intros n0 r0 w w' t' HI [Hs Hw|f Hw H1 H2 H4 H5 H6 H7 H8|g Hw H1 H2 H3 H4 H5 H6 H7 H8].
+  - eapply inv_ext; eauto.
+  - eapply inv_sent; eauto.
+  - eapply inv_retx; eauto.
 Qed.
 
 (* ---------------------------------------------------------------- configurations *)
 
 Definition CInv (n0 : Z) (r0 : list (Z * frame)) (c : config) : Prop :=
-  Inv n0 r0 (c_w c) (pend (c_ts c)) /\ (forall j t, nth_error (c_ts c) j = Some t -> task_ok (c_w c) t).
-
-Lemma pupd_twice : forall P i v v' j, Pupd (Pupd P i v) i v' j = Pupd P i v' j.
-Proof. intros. unfold Pupd. destruct (Nat.eqb j i); auto. Qed.
+  Inv n0 r0 (c_w c) /\ (forall j t, nth_error (c_ts c) j = Some t -> task_ok (c_w c) t).
 
 Lemma tasks_ok_upd : forall w w' ts i t', wle w w' ->
   (forall j t, nth_error ts j = Some t -> task_ok w t) -> task_ok w' t' ->
@@ -668,31 +508,6 @@ Proof.
   - rewrite nth_upd_neq in Hj by assumption. eapply task_ok_mono; eauto.
 Qed.
 
-(* one scheduler step, any choice: w1 is the world after the journal write of the resumed task, if any *)
-Lemma step_shape : forall n0 r0 c i t, CInv n0 r0 c -> nth_error (c_ts c) i = Some t ->
-  t_wait t = WDone \/
-  (exists t' w', pw t = None /\ resume t (c_w c) = (t', w') /\ task_ok w' t' /\ exec_post (c_w c) t' w') \/
-  (exists f tk t' w', pw t = Some (f, tk) /\ t_wait t = WDrain f tk /\ resume t (c_w c) = (t', w') /\ task_ok w' t' /\
-                      exec_post (persisted f (c_w c)) t' w').
-Proof.
-  intros n0 r0 c i t [HI Hok] Hi. specialize (Hok _ _ Hi). pose proof (i_ent _ _ _ _ HI) as He.
-  destruct (t_wait t) as [| |f tk|] eqn:Hw.
-  - right; left. destruct (resume_idle t (c_w c) (or_introl Hw) He Hok) as (t'&w'&?&?&?).
-    exists t', w'. unfold pw. rewrite Hw. auto.
-  - right; left. destruct (resume_idle t (c_w c) (or_intror Hw) He Hok) as (t'&w'&?&?&?).
-    exists t', w'. unfold pw. rewrite Hw. auto.
-  - destruct (nojournal f) eqn:Hn.
-    + right; left. destruct (resume_retx t (c_w c) f tk Hw Hn He Hok) as (t'&w'&?&?&?).
-      exists t', w'. unfold pw. rewrite Hw, Hn. auto.
-    + right; right.
-      assert (Hp : pend (c_ts c) i = Some (f, tk)) by (unfold pend, pw; rewrite Hi, Hw, Hn; auto).
-      destruct (i_pend _ _ _ _ HI _ _ _ Hp) as (_&Hnone&_).
-      pose proof (i_ent _ _ _ _ (inv_persist _ _ _ _ _ _ _ HI Hp)) as He1.
-      destruct (resume_drain t (c_w c) f tk Hw Hn Hnone He1 Hok) as (t'&w'&?&?&?).
-      exists f, tk, t', w'. unfold pw. rewrite Hw, Hn. auto.
-  - left; auto.
-Qed.
-
 Lemma sched_step_done : forall c i t, nth_error (c_ts c) i = Some t -> t_wait t = WDone -> sched_step c i = c.
 Proof.
   intros [w ts] i t Hi Hw. unfold sched_step. simpl in *. rewrite Hi. unfold resume. rewrite Hw.
@@ -701,73 +516,27 @@ Proof.
   - f_equal; auto.
 Qed.
 
+Lemma wait_done_dec : forall t, {t_wait t = WDone} + {t_wait t <> WDone}.
+Proof. intros t. destruct (t_wait t); [right|right|right|left]; congruence. Qed.
+
+(* one scheduler step, any choice *)
 Lemma step_inv : forall n0 r0 c i, CInv n0 r0 c -> CInv n0 r0 (sched_step c i).
 Proof.
   intros n0 r0 c i HC. destruct (nth_error (c_ts c) i) as [t|] eqn:Hi.
   2:{ unfold sched_step. rewrite Hi. auto. }
-  destruct (step_shape _ _ _ _ _ HC Hi) as [Hd|[(t'&w'&Hw&Hr&Hok&Hp)|(f&tk&t'&w'&Hw&Hwt&Hr&Hok&Hp)]].
-  - rewrite (sched_step_done _ _ _ Hi Hd). auto.
-  - destruct HC as [HI Hall]. unfold sched_step. rewrite Hi, Hr. split; simpl.
-    + assert (Hnone : pend (c_ts c) i = None) by (unfold pend; rewrite Hi; auto).
-      eapply inv_ext; [eapply inv_after_exec; eauto | apply same_seq_refl |].
-      intros j. eapply pend_upd; eauto.
+  destruct (wait_done_dec t) as [Hd|Hnd].
+  - rewrite (sched_step_done _ _ _ Hi Hd). exact HC.
+  - destruct HC as [HI Hall].
+    destruct (resume_any t (c_w c) Hnd (i_ent _ _ _ HI) (Hall _ _ Hi)) as (t'&w'&Hr&Hok&Hp).
+    unfold sched_step. rewrite Hi, Hr. split; simpl.
+    + eapply inv_after_exec; eauto.
     + eapply tasks_ok_upd; eauto using exec_post_wle.
-  - destruct HC as [HI Hall]. unfold sched_step. rewrite Hi, Hr. split; simpl.
-    + assert (Hp' : pend (c_ts c) i = Some (f, tk)) by (unfold pend; rewrite Hi; auto).
-      pose proof (inv_persist _ _ _ _ _ _ _ HI Hp') as HI1.
-      assert (Hn1 : Pupd (pend (c_ts c)) i None i = None) by (unfold Pupd; rewrite Nat.eqb_refl; auto).
-      pose proof (inv_after_exec _ _ _ _ _ _ _ HI1 Hn1 Hp) as HI2.
-      eapply inv_ext; [exact HI2 | apply same_seq_refl |].
-      intros j. rewrite pupd_twice. eapply pend_upd; eauto.
-    + eapply tasks_ok_upd; eauto. eapply wle_trans; [apply persisted_wle|eapply exec_post_wle; eauto].
-Qed.
-
-Lemma fifo_ok_spec : forall c i t f tk, nth_error (c_ts c) i = Some t -> t_wait t = WDrain f tk ->
-  fifo_ok c i = true -> forall j f' tk', pend (c_ts c) j = Some (f', tk') -> tk <= tk'.
-Proof.
-  intros c i t f tk Hi Hw Hf j f' tk' Hj. unfold fifo_ok in Hf. rewrite Hi, Hw in Hf.
-  rewrite forallb_forall in Hf. unfold pend in Hj.
-  destruct (nth_error (c_ts c) j) as [t2|] eqn:E; [|discriminate].
-  specialize (Hf _ (nth_error_In _ _ E)). unfold ticket_le in Hf. unfold pw in Hj.
-  destruct (t_wait t2) as [| |g tk2|]; try discriminate. destruct (nojournal g); [discriminate|].
-  inversion Hj; subst. apply Z.leb_le; auto.
-Qed.
-
-Lemma step_invF : forall n0 r0 c i, CInv n0 r0 c -> InvF (c_w c) (pend (c_ts c)) -> fifo_ok c i = true ->
-  InvF (c_w (sched_step c i)) (pend (c_ts (sched_step c i))).
-Proof.
-  intros n0 r0 c i HC HF Hfifo. destruct (nth_error (c_ts c) i) as [t|] eqn:Hi.
-  2:{ unfold sched_step. rewrite Hi. auto. }
-  destruct (step_shape _ _ _ _ _ HC Hi) as [Hd|[(t'&w'&Hw&Hr&Hok&Hp)|(f&tk&t'&w'&Hw&Hwt&Hr&Hok&Hp)]].
-  - rewrite (sched_step_done _ _ _ Hi Hd). auto.
-  - destruct HC as [HI Hall]. unfold sched_step. rewrite Hi, Hr. simpl.
-    assert (Hnone : pend (c_ts c) i = None) by (unfold pend; rewrite Hi; auto).
-    eapply invF_ext; [eapply invF_after_exec; eauto | reflexivity | reflexivity |].
-    intros j. eapply pend_upd; eauto.
-  - destruct HC as [HI Hall]. unfold sched_step. rewrite Hi, Hr. simpl.
-    assert (Hp' : pend (c_ts c) i = Some (f, tk)) by (unfold pend; rewrite Hi; auto).
-    pose proof (inv_persist _ _ _ _ _ _ _ HI Hp') as HI1.
-    pose proof (invF_persist _ _ _ _ _ _ _ HI HF Hp' (fifo_ok_spec _ _ _ _ _ Hi Hwt Hfifo)) as HF1.
-    assert (Hn1 : Pupd (pend (c_ts c)) i None i = None) by (unfold Pupd; rewrite Nat.eqb_refl; auto).
-    pose proof (invF_after_exec _ _ _ _ _ _ _ HI1 HF1 Hn1 Hp) as HF2.
-    eapply invF_ext; [exact HF2 | reflexivity | reflexivity |].
-    intros j. rewrite pupd_twice. eapply pend_upd; eauto.
 Qed.
 
 Lemma run_inv : forall n0 r0 sched c, CInv n0 r0 c -> CInv n0 r0 (run_sched c sched).
 Proof.
   intros n0 r0 sched. induction sched as [|i s IH]; intros c HC; simpl; auto.
   apply IH. apply step_inv; auto.
-Qed.
-
-Lemma run_invF : forall n0 r0 sched c, CInv n0 r0 c -> InvF (c_w c) (pend (c_ts c)) -> fifo_sched c sched = true ->
-  InvF (c_w (run_sched c sched)) (pend (c_ts (run_sched c sched))).
-Proof.
-  intros n0 r0 sched. induction sched as [|i s IH]; intros c HC HF Hs; simpl in *; auto.
-  apply andb_true_iff in Hs. destruct Hs as [H1 H2].
-  apply IH; auto.
-  - apply step_inv; auto.
-  - eapply step_invF; eauto.
 Qed.
 
 (* ================================================================== 4. exported statements *)
@@ -788,25 +557,22 @@ Definition base_instr (i : instr) : bool :=
 Definition fresh_task (t : task) : Prop :=
   t_wait t = WStart /\ forallb base_instr (t_code t) = true /\ t_out t = [] /\ t_exc t = None.
 
-Definition in_drain (ts : list task) (f : frame) : Prop :=
-  exists j t tk, nth_error ts j = Some t /\ t_wait t = WDrain f tk.
-
 Definition no_dup_error (ts : list task) : Prop :=
   forall j t, nth_error ts j = Some t -> ~ In (OExc EDupSeq) (t_out t) /\ t_exc t <> Some EDupSeq.
 
-(* the full property on the final configuration c reached from world w0; new = the new messages on the wire *)
-Definition safe_outcome (w0 : world) (c : config) (fifo : bool) : Prop :=
+(* the full property on the configuration c reached from world w0 by ANY schedule prefix;
+   new = the new messages on the wire *)
+Definition safe_outcome (w0 : world) (c : config) : Prop :=
   let w := c_w c in
   let new := newf (wire_of w) in
   map f_seq new = zseq (nout w0) (length new)
   /\ nout w = nout w0 + Z.of_nat (length new)
   /\ Forall (fun g => is_newf g = true \/ retx_ok (rows w) (nout w) g) (wire_of w)
   /\ no_dup_error (c_ts c)
-  /\ (forall f, In f new -> row_at (f_seq f) (rows w) = Some f \/ in_drain (c_ts c) f)
+  /\ (forall f, In f new -> row_at (f_seq f) (rows w) = Some f)
   /\ (forall k f, nout w0 <= k -> row_at k (rows w) = Some f -> In f new /\ f_seq f = k)
   /\ (forall k, k < nout w0 -> row_at k (rows w) = row_at k (rows w0))
-  /\ (all_done c = true -> forall f, In f new -> row_at (f_seq f) (rows w) = Some f)
-  /\ (fifo = true -> all_done c = true -> sout w = nout w - 1).
+  /\ sout w = nout w - 1.
 
 Lemma base_cok : forall w c, forallb base_instr c = true -> cok w c.
 Proof.
@@ -814,81 +580,37 @@ Proof.
   destruct i; simpl in *; auto; discriminate.
 Qed.
 
-Lemma ent_none : forall w k, ent_ok w -> nout w <= k -> row_at k (rows w) = None.
-Proof.
-  intros w k He Hk. destruct (row_at k (rows w)) as [f|] eqn:E; auto.
-  assert (Hin : In (k, f) (rows w)).
-  { clear -E. induction (rows w) as [|[a g] l IH]; simpl in *; [discriminate|].
-    destruct (a =? k) eqn:Ea; [apply Z.eqb_eq in Ea; inversion E; subst; auto|auto]. }
-  destruct (He _ _ Hin). lia.
-Qed.
-
-Lemma init_pend : forall ts, Forall fresh_task ts -> forall j, pend ts j = None.
-Proof.
-  intros ts Hts j. unfold pend. destruct (nth_error ts j) as [t|] eqn:E; auto.
-  rewrite Forall_forall in Hts. destruct (Hts _ (nth_error_In _ _ E)) as (Hwt&_). unfold pw. rewrite Hwt. auto.
-Qed.
-
 Lemma init_cinv : forall w0 ts, init_ok w0 -> Forall fresh_task ts -> CInv (nout w0) (rows w0) (mkC w0 ts).
 Proof.
-  intros w0 ts (Hw & He & Hs) Hts. pose proof (init_pend _ Hts) as Hp.
+  intros w0 ts (Hw & He & Hs) Hts.
   split; simpl.
   - constructor; rewrite ?Hw; simpl; auto; try contradiction.
     + lia.
     + intros k f Hk Hf. rewrite (ent_none _ _ He Hk) in Hf. discriminate.
-    + intros j f tk Hj. rewrite Hp in Hj. discriminate.
-    + intros j j' f f' tk tk' Hj. rewrite Hp in Hj. discriminate.
   - intros j t Hj. rewrite Forall_forall in Hts. destruct (Hts _ (nth_error_In _ _ Hj)) as (_&Hc&Ho&Hx).
     repeat split; [apply base_cok; auto|rewrite Ho; intros []|rewrite Hx; discriminate].
 Qed.
 
-Lemma init_invF : forall w0 ts, init_ok w0 -> Forall fresh_task ts -> InvF w0 (pend ts).
-Proof.
-  intros w0 ts (Hw & He & Hs) Hts. pose proof (init_pend _ Hts) as Hp.
-  constructor.
-  - lia.
-  - intros n Hn. lia.
-  - intros j f tk Hj. rewrite Hp in Hj. discriminate.
-  - intros j j' f f' tk tk' Hj. rewrite Hp in Hj. discriminate.
-Qed.
-
-Lemma all_done_pend : forall c, all_done c = true -> forall j, pend (c_ts c) j = None.
-Proof.
-  intros c Hd j. unfold pend. destruct (nth_error (c_ts c) j) as [t|] eqn:E; auto.
-  unfold all_done in Hd. rewrite forallb_forall in Hd. specialize (Hd _ (nth_error_In _ _ E)).
-  unfold is_done in Hd. unfold pw. destruct (t_wait t); auto; discriminate.
-Qed.
-
 Theorem safe_tasks_safe : forall (w0 : world) (ts : list task) (sched : list nat),
   init_ok w0 -> Forall fresh_task ts ->
-  safe_outcome w0 (run_sched (mkC w0 ts) sched) (fifo_sched (mkC w0 ts) sched).
+  safe_outcome w0 (run_sched (mkC w0 ts) sched).
 Proof.
   intros w0 ts sched Hw Hts.
   pose proof (run_inv _ _ sched _ (init_cinv _ _ Hw Hts)) as [HI Hok].
   set (c := run_sched (mkC w0 ts) sched) in *.
   unfold safe_outcome. unfold wire_of, newf. rewrite filter_rev. fold (newf (rwire (c_w c))).
-  pose proof (i_len _ _ _ _ HI) as Hlen.
+  pose proof (i_len _ _ _ HI) as Hlen.
   repeat split.
-  - rewrite (consec_zseq _ _ (i_consec _ _ _ _ HI)), rev_length. f_equal. lia.
+  - rewrite (consec_zseq _ _ (i_consec _ _ _ HI)), rev_length. f_equal. lia.
   - rewrite rev_length. lia.
-  - apply Forall_rev. apply (i_retx _ _ _ _ HI).
+  - apply Forall_rev. apply (i_retx _ _ _ HI).
   - destruct (Hok _ _ H) as (_&Hc&_). exact Hc.
   - destruct (Hok _ _ H) as (_&_&He). exact He.
-  - intros f Hf. apply in_rev in Hf. destruct (i_cover _ _ _ _ HI f Hf) as [|(j&tk&Hj)]; auto.
-    right. unfold pend in Hj. destruct (nth_error (c_ts c) j) as [t|] eqn:E; [|discriminate].
-    exists j, t, tk. split; auto. unfold pw in Hj. destruct (t_wait t) as [| |g tk2|]; try discriminate.
-    destruct (nojournal g); [discriminate|]. inversion Hj; auto.
-  - rewrite <- in_rev. destruct (i_rows _ _ _ _ HI k f H H0); auto.
-  - destruct (i_rows _ _ _ _ HI k f H H0); auto.
-  - apply (i_low _ _ _ _ HI).
-  - intros Hd f Hf. apply in_rev in Hf. destruct (i_cover _ _ _ _ HI f Hf) as [|(j&tk&Hj)]; auto.
-    rewrite (all_done_pend _ Hd) in Hj. discriminate.
-  - intros Hf Hd.
-    pose proof (run_invF _ _ sched _ (init_cinv _ _ Hw Hts) (init_invF _ _ Hw Hts) Hf) as HF.
-    fold c in HF. pose proof (f_lt _ _ HF).
-    destruct (Z_lt_ge_dec (sout (c_w c)) (nout (c_w c) - 1)) as [Hlt|]; [|lia].
-    destruct (f_cover _ _ HF (nout (c_w c) - 1) ltac:(lia)) as (j&f&tk&Hj&_).
-    rewrite (all_done_pend _ Hd) in Hj. discriminate.
+  - intros f Hf. apply in_rev in Hf. apply (i_cover _ _ _ HI); auto.
+  - rewrite <- in_rev. destruct (i_rows _ _ _ HI k f H H0); auto.
+  - destruct (i_rows _ _ _ HI k f H H0); auto.
+  - apply (i_low _ _ _ HI).
+  - apply (i_sout _ _ _ HI).
 Qed.
 
 Lemma sender_fresh : forall ms, forallb is_new ms = true -> fresh_task (sender_task ms).
@@ -906,16 +628,14 @@ Qed.
 
 Theorem senders_safe : forall (w0 : world) (mss : list (list msg)) (sched : list nat),
   init_ok w0 -> Forall (fun ms => forallb is_new ms = true) mss ->
-  let c0 := mkC w0 (map sender_task mss) in
-  safe_outcome w0 (run_sched c0 sched) (fifo_sched c0 sched).
+  safe_outcome w0 (run_sched (mkC w0 (map sender_task mss)) sched).
 Proof. intros w0 mss sched Hw Hm. apply safe_tasks_safe; auto using senders_fresh. Qed.
 
 (* the reader inside the acceptor's Logon handling (3 hooks, 1 send) plus the heartbeat probe plus
    any number of application senders; whatever the connection state is when a task is resumed *)
 Theorem logon_window_safe : forall (w0 : world) (mss : list (list msg)) (sched : list nat),
   init_ok w0 -> Forall (fun ms => forallb is_new ms = true) mss ->
-  let c0 := mkC w0 (reader_logon :: heartbeat_task :: map sender_task mss) in
-  safe_outcome w0 (run_sched c0 sched) (fifo_sched c0 sched).
+  safe_outcome w0 (run_sched (mkC w0 (reader_logon :: heartbeat_task :: map sender_task mss)) sched).
 Proof.
   intros w0 mss sched Hw Hm. apply safe_tasks_safe; auto.
   constructor; [repeat split; reflexivity|]. constructor; [repeat split; reflexivity|].
@@ -926,8 +646,7 @@ Qed.
 Theorem reader_replies_safe : forall (w0 : world) (r : task) (mss : list (list msg)) (sched : list nat),
   init_ok w0 -> In r [reader_testreq; reader_gap; reader_app] ->
   Forall (fun ms => forallb is_new ms = true) mss ->
-  let c0 := mkC w0 (r :: heartbeat_task :: map sender_task mss) in
-  safe_outcome w0 (run_sched c0 sched) (fifo_sched c0 sched).
+  safe_outcome w0 (run_sched (mkC w0 (r :: heartbeat_task :: map sender_task mss)) sched).
 Proof.
   intros w0 r mss sched Hw Hr Hm. apply safe_tasks_safe; auto.
   constructor.
@@ -939,8 +658,7 @@ Qed.
    heartbeat probe and any number of application tasks send *)
 Theorem resend_window_safe : forall (w0 : world) (b e : Z) (d : list Z) (mss : list (list msg)) (sched : list nat),
   init_ok w0 -> Forall (fun ms => forallb is_new ms = true) mss ->
-  let c0 := mkC w0 (reader_resend b e d :: heartbeat_task :: map sender_task mss) in
-  safe_outcome w0 (run_sched c0 sched) (fifo_sched c0 sched).
+  safe_outcome w0 (run_sched (mkC w0 (reader_resend b e d :: heartbeat_task :: map sender_task mss)) sched).
 Proof.
   intros w0 b e d mss sched Hw Hm. apply safe_tasks_safe; auto.
   constructor; [repeat split; reflexivity|]. constructor; [repeat split; reflexivity|].
@@ -1023,15 +741,15 @@ Lemma heartbeat_inflight_example :
   /\ map fst (rows (c_w c)) = [1; 2; 3] /\ sout (c_w c) = 3 /\ nout (c_w c) = 4 /\ st (c_w c) = S_ACTIVE.
 Proof. vm_compute. repeat split; reflexivity. Qed.
 
-(* why the wake-up rule is a hypothesis of the counter clause: LIFO wake-up of two drain waiters
-   leaves the stored counter below the highest number sent (everything else still holds) *)
+(* the wake-up order of drain waiters no longer matters (before R8a the journal write came after drain and this
+   LIFO schedule left the stored counter at 1): stored counter = highest number sent under LIFO wake-up too *)
 Definition lifo_cfg : config := mkC active0 [sender_task [app 1]; sender_task [app 2]].
 Definition lifo_sched : list nat := [0; 1; 1; 0]%nat.
 
-Lemma lifo_counter_refuted :
+Lemma lifo_counter_example :
   let c := run_sched lifo_cfg lifo_sched in
   fifo_sched lifo_cfg lifo_sched = false /\ valid_sched lifo_cfg lifo_sched = true /\ all_done c = true
-  /\ map f_seq (wire_of (c_w c)) = [1; 2] /\ sout (c_w c) = 1 /\ nout (c_w c) = 3.
+  /\ map f_seq (wire_of (c_w c)) = [1; 2] /\ map fst (rows (c_w c)) = [1; 2] /\ sout (c_w c) = 2 /\ nout (c_w c) = 3.
 Proof. vm_compute. repeat split; reflexivity. Qed.
 
 (* a request that cannot be served (BeginSeqNo beyond the last sent number): the assertion aborts the handler,
